@@ -518,7 +518,7 @@ func (fr *frame) visit(instr ssa.Instruction) continuation {
 	case *ssa.MakeMap:
 		fr.env[instr] = &smap{keyT: instr.Type().Underlying().(*types.Map).Key()}
 	case *ssa.Range:
-		fr.env[instr] = p.rangeIter(fr.get(instr.X), instr.X.Type())
+		fr.env[instr] = p.rangeIter(fr, fr.get(instr.X), instr.X.Type())
 	case *ssa.Next:
 		fr.env[instr] = p.iterNext(fr.get(instr.Iter), instr)
 	case *ssa.FieldAddr:
